@@ -90,6 +90,8 @@ func c14Run(r *Run, depth, shard int) {
 		{"depositWithCaller-31B-caller", MkDepositWithCaller(UserA.Str, math.NewInt(7), DomEth, distinct32(0x24), "uusdc", distinct32(0x25)[:31]), 2, "31-byte caller"},
 		{"depositWithCaller-33B-caller", MkDepositWithCaller(UserA.Str, math.NewInt(7), DomEth, distinct32(0x24), "uusdc", append(distinct32(0x25), 9)), 2, "33-byte caller"},
 		{"deposit-31B-recipient", MkDeposit(UserA.Str, math.NewInt(7), DomEth, distinct32(0x24)[:31], "uusdc"), 2, "31-byte mint recipient"},
+		{"deposit-33B-recipient", MkDeposit(UserA.Str, math.NewInt(7), DomEth, append(distinct32(0x24), 9), "uusdc"), 2, "33-byte mint recipient"},
+		{"depositWithCaller-64B-recipient", MkDepositWithCaller(UserA.Str, math.NewInt(7), DomEth, append(distinct32(0x24), distinct32(0x26)...), "uusdc", distinct32(0x25)), 2, "64-byte mint recipient"},
 		{"receive-mint", MkReceive(UserB.Str, fresh, Attest(fresh, signers), "burn(0,50,33)"), 1, ""},
 		{"receive-mint-zero-amount", MkReceive(UserB.Str, zeroAmt, Attest(zeroAmt, signers), "burn(0,51,0)"), 1, "the token factory refuses to mint a zero amount"},
 	}
